@@ -180,7 +180,7 @@ class SortedLookupMapColumn(NoValueColumn):
 
     for c in sort_col_ids:
       if not table.has_column(c):
-        raise KeyError("Table %s has no column %s" % (table.table_id, c))
+        raise table._missing_column_error(c)
 
     # Note that different LookupSortHelperColumns may exist with the same sort_col_ids but
     # different sort_keys because they could differ in order of columns and ASC/DESC flags.
